@@ -31,6 +31,7 @@ ASSUMPTIONS = [
 
 AV = (1.0, -2.0, 0.5, float("nan"))
 AI = (1, -2, 3, 0)
+AI8 = (-100, 100, 90, -90)  # int8 members further apart than the dtype can hold: interpolation must not happen in int8
 LABELS = (0.0, 1.0, 2.0, float("nan"))
 QS = [0.0, 0.25, 1.0 / 3.0, 0.5, 0.75, 1.0, [0.5], [0.0, 1.0], [0.75, 0.25, 0.5]]
 
@@ -62,6 +63,11 @@ def shards(tier, seed):
                 continue
             for part in range(8 if n >= 4 else 1):
                 out.append(dict(leg="chunked", engine=None, dtype="float64", func=func, n=n, part=part, nparts=8 if n >= 4 else 1))
+    # narrow integers whose spread exceeds the dtype
+    for engine in ("flox", None, "numpy"):
+        for func in ("median", "quantile", "nanquantile"):
+            for n in (1, 2, 3):
+                out.append(dict(leg="eager", engine=engine, dtype="int8", func=func, n=n, part=0, nparts=1))
     # 2-D labels (both axes reduced) with a leading batch axis, with and without expected_groups + fill_value
     for engine in ("flox", None):
         for func in ("quantile", "nanquantile"):
@@ -247,7 +253,7 @@ def run_shard(shard):
     if shard["leg"] == "nd":
         return run_nd(res, shard)
     func, engine, dtype, n = shard["func"], shard["engine"], shard["dtype"], shard["n"]
-    alphabet = AI if dtype == "int64" else AV
+    alphabet = AI if dtype == "int64" else (AI8 if dtype == "int8" else AV)
     if engine == "numpy" and n >= 4:
         alphabet = alphabet[:3] if dtype == "int64" else (1.0, -2.0, float("nan"))  # per-group Python loop: smaller alphabet
     V = space.value_matrix(alphabet, n, dtype)
@@ -286,7 +292,7 @@ def replay(payload):
     if c.get("leg") == "nd":
         return run_nd(res, dict(func=c["func"], engine=c["engine"]))
     lt = tuple(unjson_float(c["labels"]))
-    alphabet = AI if c["dtype"] == "int64" else AV
+    alphabet = AI if c["dtype"] == "int64" else (AI8 if c["dtype"] == "int8" else AV)
     V = space.value_matrix(alphabet, len(lt), c["dtype"])
     check_point(res, c["func"], c["q"], c["engine"], c["dtype"], lt, V, brank=c.get("batch_rank", 1),
                 chunks=tuple(c["chunks"]) if c.get("chunks") else None, method=c.get("method"), oned_row=c.get("oned_row"))
